@@ -46,13 +46,17 @@ CONTENTS = {
     "empty": "{ }",
     "deep": "{\n  a = 1;\n  m = {\n    n = {\n      x = 1;\n    };\n  };\n}",
     "attrpath-deep": "{\n  m.n.x = 1;\n  m.n.y = 2;\n  a = 1;\n}",
+    # attrpath families that share more than their first segment (merged recursively at parse time)
+    "attrpath-deep4": "{\n  s.n.v.m.a = true;\n  s.n.v.m.b = false;\n  s.n.w = 1;\n  k = 1;\n}",
     "twins": "{\n  z = 0;\n  a.enable = true;\n  b.enable = true;\n  enable = true;\n  m.x = 1;\n}",
     "twins-inline": "{ a.enable = true; b.enable = true; c.enable = true; }",
 }
 PATHS = ["a.enable", "b.enable", "c.enable", "enable", "@lib.v", "@w.v", "a", "b", "z", "m", "m.x", "m.z", "m.n.x", "n.p.q", '"foo-bar"', '"a.b"', '"new key"', "a.k", "m.x.k",
          "@v", "@@u", "@@v", "@new", "@@@x", "@v.k", "", "a..b", ".a", '"a', "@", "@@", "a-b", '"if"',
          # a scoped name that the attribute set body binds as well (the body must keep its text: C09)
-         "@a", "@@a", "@m.x"]
+         "@a", "@@a", "@m.x",
+         # later members of deep attrpath families, fresh leaves in them, and the paths a mis-merged tree would answer to
+         "m.n.y", "m.y", "m.n.z", "s.n.v.m.b", "s.n.v.m.c", "s.n.v.b", "s.n.w"]
 VALUES = ["2", '"s"', "[ 1 2 ]", "{ k = 1; }", "v", "{", "1 2", ""]
 
 
@@ -64,6 +68,8 @@ def documents(tier):
             if w == "let-twins" and c not in ("flat", "twins", "attrpath"):
                 continue
             if c.startswith("twins") and w not in ("bare", "let", "let-twins", "lambda-call", "rec"):
+                continue
+            if c == "attrpath-deep4" and w not in ("bare", "let", "lambda-call", "rec", "lambda"):
                 continue
             text = wt.replace("SET", ct)
             if w == "call" and c in ("inline", "empty"):
